@@ -90,7 +90,18 @@ def initial_states(r, R0, offgrid=True):
             g = r.grids[s]
             hi = g[-1] if r.kind[s] == "LogspaceGrid" else None
             off[s] = np.clip(init[s] * 1.07 + 0.113, g[0], hi)
-        init = {s: np.concatenate([init[s], off[s]]) for s in names}
+        # third block: outside linear grids on both sides (extrapolation), cell mid-points of log grids
+        out = {s: init[s].copy() for s in names}
+        for s in r.cont_states:
+            g = r.grids[s]
+            k = np.arange(n_grid)
+            if r.kind[s] == "LogspaceGrid":
+                j = k % (len(g) - 1)
+                out[s] = np.sqrt(g[j] * g[j + 1])
+            else:
+                step = g[1] - g[0]
+                out[s] = np.where(k % 2 == 0, g[0] - 0.37 * step, g[-1] + 0.61 * step)
+        init = {s: np.concatenate([init[s], off[s], out[s]]) for s in names}
     return init, n_grid
 
 
